@@ -3,6 +3,7 @@
 //  (1) the repository's own data files (oracle self-test), (2) ALL strings up to a bound over a JSON alphabet,
 //  (3) rapidcheck: grammar-derived documents, every truncation, single-edit mutations.
 #include <tao/pegtl.hpp>
+#include <tao/pegtl/buffer_input.hpp>
 #include <tao/pegtl/contrib/json.hpp>
 
 #include "harness/rc_util.hpp"
@@ -36,6 +37,40 @@ static int pegtl_accepts( const std::string& s )
       r = 3;
    }
    std::free( buf );
+   return r;
+}
+
+// the same text delivered incrementally: a reader that hands out 1, 3, 2, 1, ... bytes per call, a buffer that holds the whole text
+struct trickle_reader
+{
+   const char* p;
+   const char* e;
+   bool one_by_one = false;  // exactly one byte per call: the parser never sees more than it asked for
+   unsigned i = 0;
+   std::size_t operator()( char* buf, const std::size_t len )
+   {
+      static const std::size_t pat[] = { 1, 3, 2, 1, 1, 5 };
+      std::size_t k = one_by_one ? 1 : pat[ i++ % 6 ];
+      k = ( std::min )( k, ( std::min )( len, std::size_t( e - p ) ) );
+      std::memcpy( buf, p, k );
+      p += k;
+      return k;
+   }
+};
+
+static int pegtl_accepts_buffered( const std::string& s, const bool one_by_one )
+{
+   int r;
+   try {
+      p::buffer_input< trickle_reader, p::eol::lf_crlf, std::string, 4 > in( "json", s.size() + 16, trickle_reader{ s.data(), s.data() + s.size(), one_by_one } );
+      r = p::parse< grammar >( in ) ? 1 : 0;
+   }
+   catch( const p::parse_error& ) {
+      r = 2;
+   }
+   catch( ... ) {
+      r = 3;
+   }
    return r;
 }
 
@@ -77,8 +112,30 @@ static bool check( const std::string& s, vf::rc_last* last = nullptr, bool sampl
       std::fprintf( samples_file, "%s %d\n", vf::hexs( s ).c_str(), want );
       ++samples_written;
    }
-   if( got == want ) {
+   int got2 = want;
+   const std::uint64_t hs = vf::fnv( s );
+   if( sample_it || ( hs % 8 ) == 0 ) {
+      R.eval();
+      got2 = pegtl_accepts_buffered( s, ( hs >> 8 ) % 2 == 0 );
+      if( got2 == want && sample_it ) {
+         R.eval();
+         got2 = pegtl_accepts_buffered( s, ( hs >> 8 ) % 2 != 0 );
+      }
+   }
+   if( got == want && got2 == want ) {
       return true;
+   }
+   if( got == want ) {
+      const std::string sig2 = std::string( "buffer_input:" ) + ( got2 >= 2 ? "throws" : classify( s, want ) );
+      const std::string k2 = vf::jobj().str( "hex", vf::hexs( s ) ).str( "text", vf::show( s ) ).done();
+      const std::string d2 = "json::text,eof on '" + vf::show( s ) + "' read through a buffer_input (1 resp. 1-5 bytes per read): PEGTL " + ( got2 == 1 ? "accepts" : got2 == 0 ? "rejects" : "throws" ) + ", RFC 8259 recogniser " + ( want ? "accepts" : "rejects" ) + ", memory_input agrees with the recogniser";
+      if( last ) {
+         last->set( sig2, k2, d2 );
+      }
+      else {
+         R.fail( sig2, k2, d2 );
+      }
+      return false;
    }
    const std::string sig = got >= 2 ? "throws" : classify( s, want );
    const std::string k = vf::jobj().str( "hex", vf::hexs( s ) ).str( "text", vf::show( s ) ).done();
@@ -204,7 +261,7 @@ int main( int argc, char** argv )
    const vf::args A = vf::parse_args( argc, argv );
    if( !A.kase.empty() ) {
       const std::string js = vf::read_file( A.kase );
-      check( vf::unhex( vf::jget( js, "hex" ) ) );
+      check( vf::unhex( vf::jget( js, "hex" ) ), nullptr, true );  // replay: every variant (memory and both incremental readers)
       R.write( A.out );
       return R.failures.empty() ? 0 : 1;
    }
